@@ -1472,3 +1472,155 @@ fn c04_block_count_extremes() {
 	block_count_extreme_case(first);
 	kani::cover!(true, "end of harness reached");
 }
+
+// =============================================================================================
+// C04: every descent into a composite costs one level of the depth budget
+
+struct EnumTarget;
+impl<'de> serde::Deserialize<'de> for EnumTarget {
+	fn deserialize<D: serde::Deserializer<'de>>(d: D) -> Result<Self, D::Error> {
+		struct V;
+		impl<'de> Visitor<'de> for V {
+			type Value = EnumTarget;
+			fn expecting(&self, f: &mut std::fmt::Formatter) -> std::fmt::Result {
+				f.write_str("enum")
+			}
+			fn visit_enum<A: EnumAccess<'de>>(self, _a: A) -> Result<EnumTarget, A::Error> {
+				Ok(EnumTarget)
+			}
+		}
+		d.deserialize_enum("E", &["A"], V)
+	}
+}
+struct MapTarget;
+impl<'de> serde::Deserialize<'de> for MapTarget {
+	fn deserialize<D: serde::Deserializer<'de>>(d: D) -> Result<Self, D::Error> {
+		struct V;
+		impl<'de> Visitor<'de> for V {
+			type Value = MapTarget;
+			fn expecting(&self, f: &mut std::fmt::Formatter) -> std::fmt::Result {
+				f.write_str("map")
+			}
+			fn visit_map<A: MapAccess<'de>>(self, _a: A) -> Result<MapTarget, A::Error> {
+				Ok(MapTarget)
+			}
+			fn visit_seq<A: SeqAccess<'de>>(self, _a: A) -> Result<MapTarget, A::Error> {
+				Ok(MapTarget)
+			}
+		}
+		d.deserialize_any(V)
+	}
+}
+
+fn depth0<'a, T: serde::Deserialize<'a>>(node: &'static SchemaNode<'static>, data: &'a [u8]) -> bool {
+	let (r, _) = de_slice_cfg::<T>(node, data, 1000, 0);
+	let e = r.is_err();
+	std::mem::forget(r);
+	e
+}
+
+// @harness props=C04 tier=quick timeout=1200
+// @bound allowed_depth = 0: entering an array, a map, a record, a union (as a value, as Option, as a Rust enum), an enum read as a Rust enum must each be refused (targets that do not descend further: the refusal has to come from the depth budget of that very descent)
+#[kani::proof]
+#[kani::unwind(8)]
+#[kani::stub(alloc::fmt::format, crate::verif::stub_format)]
+fn c04_depth_zero_every_descent() {
+	crate::verif::stack_node!(arr = nodes::array_of(&nodes::LONG));
+	crate::verif::stack_node!(map = nodes::map_of(&nodes::LONG));
+	crate::verif::record_node!(rec = "r", None; [("a", &nodes::LONG)]);
+	crate::verif::union_node_de!(un = [&nodes::NULL, &nodes::LONG]);
+	crate::verif::enum_node!(en = "e", None; ["a", "b"]);
+	let data = [0u8, 0, 0];
+	assert!(depth0::<MapTarget>(arr, &data), "c04_depth: entering an array did not cost a depth level");
+	assert!(depth0::<MapTarget>(map, &data), "c04_depth: entering a map did not cost a depth level");
+	assert!(depth0::<MapTarget>(rec, &data), "c04_depth: entering a record did not cost a depth level");
+	assert!(depth0::<()>(un, &data), "c04_depth: entering a union did not cost a depth level");
+	assert!(depth0::<EnumTarget>(un, &data), "c04_depth: entering a union as enum did not cost a depth level");
+	assert!(depth0::<EnumTarget>(en, &data), "c04_depth: reading an enum as a Rust enum did not cost a depth level");
+	assert!(depth0::<EnumTarget>(&nodes::DOUBLE, &data), "c04_depth: reading a value as a newtype-variant enum did not cost a depth level");
+	kani::cover!(true, "end of harness reached");
+}
+
+/// reference decode of map<long> into at most 2 entries with keys of at most 1 byte
+fn ref_map_long(d: &mut spec::Dec, keys: &mut [OBytes<1>; 2], vals: &mut [i64; 2], n: &mut usize, over: &mut bool) -> Option<()> {
+	let mut left: u64 = 0;
+	let mut size: Option<u64> = None;
+	let mut start = 0;
+	let mut tokens = 0;
+	loop {
+		if tokens > d.data.len() {
+			return None;
+		}
+		tokens += 1;
+		if left == 0 {
+			if let Some(sz) = size {
+				if sz != (d.pos - start) as u64 {
+					d.noncanon = true;
+				}
+			}
+			size = None;
+			let c = d.block_count(&mut size)?;
+			if c == 0 {
+				return Some(());
+			}
+			left = c;
+			start = d.pos;
+		} else {
+			let k = d.len_prefixed()?;
+			if !spec::utf8_valid(k) {
+				return None;
+			}
+			let v = d.long()?;
+			if *n < 2 && k.len() <= 1 {
+				keys[*n].len = k.len();
+				if k.len() == 1 {
+					keys[*n].buf[0] = k[0];
+				}
+				vals[*n] = v;
+				*n += 1;
+			} else {
+				*over = true;
+			}
+			left -= 1;
+		}
+	}
+}
+
+// @harness props=C03,C04 also=C01 tier=quick timeout=1800
+// @bound map<long>: every byte string of length 0..=6 against the reference decoder (string keys: UTF-8 verdict from the reference validator), maps of more than 2 entries or keys longer than 1 byte are outside
+#[kani::proof]
+#[kani::unwind(10)]
+#[kani::stub(alloc::fmt::format, crate::verif::stub_format)]
+#[kani::stub(std::str::from_utf8, crate::verif::stub_from_utf8)]
+fn c03_diff_map_long() {
+	crate::verif::stack_node!(map = nodes::map_of(&nodes::LONG));
+	let data: [u8; 6] = kani::any();
+	let len: usize = kani::any();
+	kani::assume(len <= 6);
+	let s = &data[..len];
+	let mut d = spec::Dec::new(s);
+	let mut keys = [OBytes::<1>::default(); 2];
+	let mut vals = [0i64; 2];
+	let mut n = 0;
+	let mut over = false;
+	let ok = ref_map_long(&mut d, &mut keys, &mut vals, &mut n, &mut over);
+	kani::assume(!over);
+	let (r, used) = de_slice::<Map1<i64, 2>>(map, s);
+	kani::cover!(ok.is_some() && n == 2);
+	kani::cover!(ok.is_some() && n == 1 && data[0] == 1);
+	match (&r, ok) {
+		(Ok(m), Some(())) => {
+			assert!(m.len == n && used == d.pos, "c03_diff_map: entry count/length differs from the reference decoder");
+			let mut i = 0;
+			while i < n {
+				assert!(m.vals[i] == vals[i] && m.keys[i] == keys[i], "c03_diff_map: entry differs from the reference decoder");
+				i += 1;
+			}
+		}
+		(Ok(_), None) => assert!(false, "c03_diff_map: invalid encoding produced a value"),
+		(Err(_), Some(())) => assert!(d.noncanon, "c03_diff_map: valid encoding rejected"),
+		(Err(_), None) => {}
+	}
+	std::mem::forget(r);
+	kani::cover!(true, "end of harness reached");
+}
